@@ -97,6 +97,7 @@ type c12Handle struct {
 	DynNil   bool    `json:"dyn_nil"` // the callback returns no filter for the table
 	Continue bool    `json:"continue"`
 	DynFirst bool    `json:"dyn_first,omitempty"` // WithDynamicLimit(...).WithShardLimit(...) instead of the other order
+	NilCont  bool    `json:"nil_cont,omitempty"`  // the dynamic limit is given without ShouldContinueOnError: nothing may continue
 }
 
 func (h c12Handle) enc() interface{} {
@@ -109,7 +110,7 @@ func (h c12Handle) enc() interface{} {
 		if !h.DynNil {
 			f = c12EncKVs(h.Dyn)
 		}
-		out["dyn"] = map[string]interface{}{"filter": f, "continue": h.Continue}
+		out["dyn"] = map[string]interface{}{"filter": f, "continue": h.Continue && !h.NilCont}
 	}
 	return out
 }
@@ -129,10 +130,11 @@ func (h c12Handle) open(base *sqlgen.DB) (*sqlgen.DB, error) {
 		if !h.DynNil {
 			f = c12Filter(h.Dyn)
 		}
-		if db, err = db.WithDynamicLimit(sqlgen.DynamicLimit{
-			GetLimitFilter:        func(context.Context, string) sqlgen.Filter { return f },
-			ShouldContinueOnError: func(error, string) bool { return cont },
-		}); err != nil {
+		dl := sqlgen.DynamicLimit{GetLimitFilter: func(context.Context, string) sqlgen.Filter { return f }}
+		if !h.NilCont {
+			dl.ShouldContinueOnError = func(error, string) bool { return cont }
+		}
+		if db, err = db.WithDynamicLimit(dl); err != nil {
 			return nil, err
 		}
 	}
@@ -854,6 +856,7 @@ func c12GenHandle(r *Rand) c12Handle {
 		h.HasDyn = true
 		h.DynNil = r.Chance(0.2)
 		h.Continue = r.Chance(0.4)
+		h.NilCont = r.Chance(0.2)
 		h.Dyn = []c12KV{{"shard", c12Val{Ty: 0, V: int64(r.Intn(3))}}}
 		if r.Chance(0.3) {
 			h.Dyn = []c12KV{{"n", c12Val{Ty: 0, V: int64(10 * r.Intn(3))}}}
@@ -953,6 +956,12 @@ func runC12(c *Ctx) error {
 		c12One(c, m, f.Case)
 		fmt.Printf("replay: %d failures\n", len(c.Rep.Failures))
 		return nil
+	}
+	// the recorded finding C12-4: a dynamic limit given without ShouldContinueOnError
+	{
+		before := len(c.Rep.Failures)
+		c12One(c, m, c12Case{Handle: c12Handle{HasDyn: true, NilCont: true, Dyn: []c12KV{{"shard", c12Val{Ty: 0, V: 1}}}}, Call: c12Call{Op: "query", Filter: []c12KV{{"shard", c12Val{Ty: 0, V: 2}}}}})
+		c.Rep.Repros["C12-4"] = Repro{Fails: len(c.Rep.Failures) > before, Detail: "WithDynamicLimit(DynamicLimit{GetLimitFilter: shard=1}) and Query(shard=2)"}
 	}
 	r := c.Rng
 	n := c.N(3000, 150000)
